@@ -300,7 +300,7 @@ class Flow:
                     ts.append(t)
             if len(ts) == 1:
                 return ts[0]
-            return ("phi", tuple(sorted(ts, key=repr)))
+            return mk_phi(ts)
         if name in self.locals:
             # a local that is unbound on this path
             return ("unk", "unbound:" + name)
@@ -332,7 +332,7 @@ class Flow:
                         ts.append(t)
                 if len(ts) == 1:
                     return ts[0]
-                return ("phi", tuple(sorted(ts, key=repr)))
+                return mk_phi(ts)
             return pf._free_name(name, depth)
         return global_term(self.model, self.fi.module, name)
 
@@ -424,6 +424,24 @@ class Flow:
         return ("unk", src_of(e, 60))
 
 
+def mk_phi(alts):
+    """A phi of the distinct alternatives, nested phis flattened; a single alternative is itself."""
+    flat = []
+
+    def add(t):
+        if t[0] == "phi":
+            for x in t[1]:
+                add(x)
+        elif t not in flat:
+            flat.append(t)
+
+    for a in alts:
+        add(a)
+    if len(flat) == 1:
+        return flat[0]
+    return ("phi", tuple(sorted(flat, key=repr)))
+
+
 def mk_idx(base, idx):
     """``base[idx]`` with tuple/list displays and phis of them folded: (a, b)[0] -> a."""
     if idx[0] == "const":
@@ -443,7 +461,7 @@ def mk_idx(base, idx):
                     if r not in alts:
                         alts.append(r)
                 if alts and all(not (r[0] == "idx" and r[2] == idx) for r in alts):
-                    return alts[0] if len(alts) == 1 else ("phi", tuple(sorted(alts, key=repr)))
+                    return mk_phi(alts)
     return ("idx", base, idx)
 
 
@@ -534,7 +552,7 @@ def record_field(model, base, attr=None, index=None):
             out.append(bound[attr_])
     if not out:
         return None
-    return out[0] if len(out) == 1 else ("phi", tuple(sorted(out, key=repr)))
+    return mk_phi(out)
 
 
 def global_term(model, mod, name):
